@@ -1,4 +1,5 @@
 import QcelVerif.Model.HashConcrete
+import QcelVerif.Gen.HashSrc
 import QcelVerif.Lib.Proto
 /-! Line-protocol driver for the C11 model.
 
@@ -8,8 +9,13 @@ import QcelVerif.Lib.Proto
   prep|k|a or s|doubles             -> ok <rounded values>      (float_prep array / scalar branch)
 
 doubles: `nz` (= -0.0) or `p/q` / integer (exact value); lists are space separated; `N` = None.
+
+THREE-WAY: every answer carries, after a TAB, the same quantity computed by the generic evaluator of
+`Model/HashAst.lean` at the terms `Gen/HashSrc.lean` holds (re-read from the source by `harness/c11_src.py` on this
+run): `hash` -> … TAB <source-derived canon fields> TAB <source-derived preimage>; `cons`, `prep` -> … TAB <source-derived answer>.
+`src-untranslated` when the translator refused the source; `src-error` where the source-derived function raises.
 -/
-open QcelVerif QcelVerif.Hash QcelVerif.Proto
+open QcelVerif QcelVerif.Hash QcelVerif.Proto QcelVerif.Hash.Src
 
 def parseDbl? (s : String) : Option Dbl :=
   let t := trimStr s
@@ -67,6 +73,65 @@ def showFrags (l : List (List Int)) : String :=
 def drvParams (tbl : List (List Char × Dbl)) : Params (List Char) :=
   concreteParams (fun s => (tbl.lookup s).getD (.val 0)) id
 
+/-! ### the source-derived voice -/
+
+/-- a value on its way through the source-derived `float_prep`, shown as a signed integer scaled by `10^k0` (the harness's
+convention for the field); a value that never went through `float_prep` is shown as `raw` -/
+def showValAt (k0 : Nat) : Val → String
+  | .raw _ => "raw"
+  | .rd k r =>
+    let sgn := if r.neg then "-" else "+"
+    if k ≤ k0 then sgn ++ toString (r.mag * 10 ^ (k0 - k)) else s!"{sgn}{r.mag}e-{k}"
+
+def showValsAt (k0 : Nat) (l : List Val) : String := " ".intercalate (l.map (showValAt k0))
+
+/-- the decimals the harness prints a rounded field with -/
+def fieldK0 : FieldName → Nat
+  | .masses => 6
+  | .geometry => 8
+  | _ => 4
+
+def showFieldVal (f : FieldName) : FieldVal → String
+  | .strs l => ",".intercalate (l.map String.ofList)
+  | .floats _ l => showValsAt (fieldK0 f) l
+  | .float v => showValAt (fieldK0 f) v
+  | .int n => toString n
+  | .bools l => ",".intercalate (l.map (fun b => if b then "1" else "0"))
+  | .intss l => showFrags l
+  | .ints l => showIntList l
+  | .bonds o => showBonds o
+  | .typeError => "TypeError"
+
+def rawMarker : Dbl → List Char := fun _ => "<float that did not go through float_prep>".toList
+
+def srcHashAnswer (P : Params (List Char)) (m : Mol) : String :=
+  if !Gen.translationOk then "src-untranslated\tsrc-untranslated"
+  else
+    "|".intercalate (Gen.getHash.fields.map (fun f => showFieldVal f (srcFieldVal Gen.floatPrep Gen.getHash P m f)))
+      ++ "\t" ++ String.ofList (srcHash Gen.floatPrep Gen.getHash P rawMarker m)
+
+def srcPrepAnswer (k : Nat) (ty : PyType) (xs : List Dbl) : String :=
+  if !Gen.translationOk then "src-untranslated"
+  else match xs.mapM (floatPrep Gen.floatPrep rndDouble k ty) with
+    | some vs => "ok " ++ showValsAt k vs
+    | none => "src-error"
+
+def srcConsAnswer (m : Mol) : String :=
+  if !Gen.translationOk then "src-untranslated"
+  else match srcConstruct Gen.floatPrep Gen.consFn Gen.connFn rndDouble m with
+    | none => "src-error"
+    | some s =>
+      -- the stored doubles as the constructor's float_prep left them, the stored bonds, and the stored doubles once more
+      -- through the source-derived array branch at the hash's decimals for geometry (what `get_hash` will see)
+      let k := Gen.consFn.defaultNoise
+      let stored := match m.geometry.mapM (floatPrep Gen.floatPrep rndDouble k .ndarray) with
+        | some vs => showValsAt 8 vs
+        | none => "src-error"
+      let again := match s.geometry.mapM (floatPrep Gen.floatPrep rndDouble 8 .ndarray) with
+        | some vs => showValsAt 8 vs
+        | none => "src-error"
+      "ok " ++ stored ++ "|" ++ showBonds s.connectivity ++ "|" ++ again
+
 def stepHash (f : List String) : String :=
   match f with
   | [sy, ms, c, mu, re, ge, fr, fc, fm, co, dm] =>
@@ -86,7 +151,7 @@ def stepHash (f : List String) : String :=
           [ ",".intercalate (k.symbols.map String.ofList), showRds k.masses, showRd k.charge, toString k.mult,
             ",".intercalate (k.real.map (fun b => if b then "1" else "0")), showRds k.geometry,
             showFrags k.fragments, showRds k.fragCharges, showIntList k.fragMults, showBonds k.connectivity ]
-        "ok " ++ cs ++ "\t" ++ String.ofList (hash P m)
+        "ok " ++ cs ++ "\t" ++ String.ofList (hash P m) ++ "\t" ++ srcHashAnswer P m
     | _, _, _, _, _, _, _, _, _, _, _ => "bad-op"
   | _ => "bad-op"
 
@@ -101,13 +166,13 @@ def stepC11 (line : String) : String :=
       let s := construct rndDouble m
       -- the stored doubles, re-read as scaled integers (exact: they are k-decimal values)
       "ok " ++ showRds (m.geometry.map (prepArr rndDouble GEOMETRY_NOISE)) ++ "|" ++ showBonds s.connectivity
-        ++ "|" ++ showRds (s.geometry.map (prepArr rndDouble GEOMETRY_NOISE))
+        ++ "|" ++ showRds (s.geometry.map (prepArr rndDouble GEOMETRY_NOISE)) ++ "\t" ++ srcConsAnswer m
     | _, _ => "bad-op"
   | ["prep", k, mode, xs] =>
     match parseNat? k, parseDblList? xs with
     | some k, some xs =>
-      if mode == "a" then "ok " ++ showRds (xs.map (prepArr rndDouble k))
-      else if mode == "s" then "ok " ++ showRds (xs.map (prepScalar k))
+      if mode == "a" then "ok " ++ showRds (xs.map (prepArr rndDouble k)) ++ "\t" ++ srcPrepAnswer k .ndarray xs
+      else if mode == "s" then "ok " ++ showRds (xs.map (prepScalar k)) ++ "\t" ++ srcPrepAnswer k .float xs
       else "bad-op"
     | _, _ => "bad-op"
   | _ => "bad-op"
